@@ -342,11 +342,10 @@ def ev_cg(spec):
     Mt = None if not M else to_layout(torch.tensor(M, dtype=d) / sa, spec["mlayout"], 1)
     probe = spec["mode"] == "probe"
     tol = CG_PROBE_TOL if probe else spec.get("tol", CG_DEFAULT_TOL)
-    kw = {"maxiter": spec["iters"], "tol": tol} if probe else ({} if "tol" not in spec else {"tol": tol})
+    # probe: exact CG needs `iters` updates (SolversGen); the real loop gets one more (counting conventions)
+    kw = {"maxiter": spec["iters"] + 1, "tol": tol} if probe else ({} if "tol" not in spec else {"tol": tol})
     ev = {"act": "cg", "A": A, "b": b, "x0": x0, "M": M, "iters": spec["iters"], "layout": spec["layout"],
-          "maxiter": spec["iters"] if probe else 0, "tol_e9": int(tol * 1e9), "rel_e9": 0, "zero": False}
-    if probe and spec["iters"] == 0:
-        ev["maxiter"] = 0      # maxiter = 0 is "return the guess": judged like a default call of the exact guess
+          "maxiter": spec["iters"] + 1 if probe else 0, "tol_e9": int(tol * 1e9), "rel_e9": 0, "zero": False}
     try:
         x = pp.optim.solver.CG(**kw)(At, bt, xt, Mt)
     except Exception as ex:
